@@ -242,6 +242,7 @@ fn f_sphere(v: &J, s: f64) -> f64 { v.as_object().unwrap().values().map(|x| { le
 fn f_bound(v: &J, _s: f64) -> f64 { v.as_f64().unwrap() }
 fn f_far(v: &J, _s: f64) -> f64 { (v.as_f64().unwrap() - 1e6).abs() }
 fn f_deep(v: &J, _s: f64) -> f64 { v.as_f64().unwrap().abs() }
+fn f_warm(v: &J, _s: f64) -> f64 { let x = v.as_f64().unwrap(); x * x }
 fn f_grid(v: &J, _s: f64) -> f64 { let a = v["a"].as_i64().unwrap() as f64; let b = v["b"].as_i64().unwrap() as f64; (a - 7.0) * (a - 7.0) + (b + 3.0) * (b + 3.0) }
 fn f_onemax(v: &J, _s: f64) -> f64 { v.as_array().unwrap().iter().filter(|b| !b.as_bool().unwrap()).count() as f64 }
 fn f_mapsize(v: &J, _s: f64) -> f64 { (v.as_object().unwrap().len() as f64 - 10.0).abs() }
@@ -271,6 +272,9 @@ pub fn battery() -> Vec<Problem> {
     // scale over generations gets there (optimum 1e6 scales away; convergence 12 orders below the scale)
     v.push(Problem { name: "far".into(), spec: "type: real\ninit: 0.0\nscale: 1.0\n".into(), budget: 10000, f: f_far, scale: 1.0 });
     v.push(Problem { name: "deep".into(), spec: "type: real\ninit: 1.0\nscale: 1000.0\n".into(), budget: 10000, f: f_deep, scale: 1.0 });
+    // warm start: the initial guess is already within 1e-3 scale units of the optimum and stays the best-ranked
+    // individual for a long time; the adaptive parameters of its offspring must be inherited all the same
+    v.push(Problem { name: "warm".into(), spec: "type: real\ninit: 0.001\nscale: 1.0\n".into(), budget: 2000, f: f_warm, scale: 1.0 });
     v.push(Problem { name: "choice".into(), spec: "type: variant\ninit: a\na:\n  type: real\n  init: 0.0\n  scale: 1.0\nb:\n  type: enum\n  values: [x, y, z]\n  init: x\n".into(), budget: 500, f: f_choice, scale: 1.0 });
     v
 }
